@@ -529,7 +529,13 @@ def model_bytes(ex, name, A, kw, st, node):
     if sq.kind == 'str':
         ex.oblige(st, False, 'no-TypeError(string argument without an encoding)', node)
     if sq.kind != 'bytes':
-        ex.byte_range(sq, st, node)
+        if 'ValueError' in getattr(ex.c, 'implicit_raises', ()) and isinstance(sq.n, int) and sq.n <= 16:
+            # the contract allows this call to raise ValueError: the out-of-range case is an exceptional OUTCOME
+            ok = AND(*[AND(x >= 0, x <= 255) for x in (sq.get(i) for i in range(sq.n)) if not isinstance(x, int) or not 0 <= x <= 255])
+            if not ex.decide(ok, st):
+                return RaisedValue('ValueError')
+        else:
+            ex.byte_range(sq, st, node)
     return out(sq)
 
 
